@@ -3,10 +3,20 @@
 //! round trip through jiff's own parser (same instant, civil fields, offset,
 //! time zone) plus an independent reader (R-fmt, `c09/rfmt.rs`) that must
 //! decode the printed text to the same instant via `refmodel::cal`.
+//!
+//! Both directions are covered: value -> text -> value for every value of the
+//! pools, and canonical text -> value -> text (the independent writer W-fmt of
+//! `c09/rfmt.rs` produces the text; what jiff prints must be that text). The
+//! sections after `options` cover the remaining entry points: the
+//! `offset_conflict` x `disambiguation` matrix of `DateTimeParser` on printed
+//! zoned datetimes, `Pieces` (every combination of date/time/offset/annotation
+//! presence), an enumerated grammar of canonical texts, lone time zones and
+//! zones that cannot be named (POSIX, fixed offsets with seconds,
+//! Etc/Unknown), and the `std::fmt` flags and `Write` adapters.
 
 use jiff::civil::{Date, DateTime, Time};
-use jiff::fmt::temporal::{DateTimeParser, DateTimePrinter};
-use jiff::tz::{Offset, TimeZone, TimeZoneDatabase};
+use jiff::fmt::temporal::{DateTimeParser, DateTimePrinter, Pieces, PiecesNumericOffset, PiecesOffset, TimeZoneAnnotationKind};
+use jiff::tz::{Disambiguation, Offset, OffsetConflict, TimeZone, TimeZoneDatabase};
 use jiff::{Timestamp, Zoned};
 use rayon::prelude::*;
 use refmodel::cal;
@@ -51,6 +61,11 @@ fn main() {
     sec_zoned_bundled(&r);
     sec_zoned_fixed(&r);
     sec_options(&r);
+    sec_parser_options(&r);
+    sec_pieces(&r);
+    sec_canon(&r);
+    sec_time_zone(&r);
+    sec_fmt_flags(&r);
 
     if r.only_section.is_none() {
         r.require(r.get_count("dates") == (cal::max_day() - cal::min_day() + 1) as u64, "all 7304484 dates printed and parsed");
@@ -60,6 +75,23 @@ fn main() {
         r.require(r.get_count("zoned_fold_and_subminute") > 0, "zoned instants inside sub-minute folds probed");
         r.require(r.get_count("ts_offset_subminute") > 0 && r.get_count("ts_offset_whole_minute") > 0, "both offset kinds printed");
         r.require(r.get_count("options_lossy") > 0 && r.get_count("options_lossless") > 0, "lossy and lossless option cases");
+        r.require(r.get_count("zoned_canonical_texts_compared") > 0 && r.get_count("zoned_text_parsed_as_other_types") > 0, "zoned texts compared with the canonical text and read as the smaller types");
+        r.require(
+            r.get_count("parser_options_ambiguity_errors_expected") > 0
+                && r.get_count("parser_options_result_differs_from_original_in_fold") > 0
+                && r.get_count("parser_options_always_offset_shifted_by_rounding") > 0,
+            "parser options: ambiguity errors, fold sides and rounding shifts all occur",
+        );
+        r.require(
+            r.get_count("pieces_values") > 100_000 && r.get_count("pieces_subminute_offset") > 0 && r.get_count("pieces_midnight_forced_by_offset") > 0,
+            "pieces: all presence combinations, sub-minute offsets, forced midnight",
+        );
+        r.require(r.get_count("canon_pieces_texts_with_critical_flag") > 0 && r.get_count("canon_texts_refused_as_out_of_range") > 0 && r.get_count("canon_leap_second_texts") > 0, "canonical grammar: critical flags, out-of-range texts, second 60");
+        r.require(
+            r.get_count("time_zone_fixed_offsets") == 187_199 && r.get_count("time_zone_iana_names") > 500 && r.get_count("time_zone_posix_zoned_cases") > 0 && r.get_count("time_zone_unknown_zoned_cases") > 0,
+            "lone time zones: all fixed offsets, all names, POSIX and unknown zones",
+        );
+        r.require(r.get_count("fmt_flags_cases") > 10_000 && r.get_count("fmt_flags_writer_cases") > 0, "format flags and writers exercised");
     }
     for k in [
         "dates_4digit_year",
@@ -74,6 +106,21 @@ fn main() {
         "options_lossy",
         "options_lossless",
         "reader_instants_compared",
+        "zoned_canonical_texts_compared",
+        "zoned_text_parsed_as_other_types",
+        "parser_options_cases",
+        "parser_options_excluded_known_or_undefined",
+        "parser_options_ambiguity_errors_expected",
+        "parser_options_result_differs_from_original_in_fold",
+        "parser_options_always_offset_shifted_by_rounding",
+        "pieces_values",
+        "pieces_option_cases",
+        "canon_texts",
+        "canon_pieces_texts_with_critical_flag",
+        "canon_texts_refused_as_out_of_range",
+        "time_zone_fixed_offsets_with_seconds",
+        "time_zone_text_instant_shifted_by_rounding",
+        "fmt_flags_cases",
     ] {
         r.outcome(k, r.get_count(k));
     }
@@ -126,6 +173,11 @@ fn sec_date(r: &Report) {
                         }
                     }
                 }
+                // text -> value -> text: the independently written canonical
+                // text of this date is what jiff printed (and just re-parsed)
+                if text != rfmt::fmt_date(y, m, d) {
+                    r.viol("date", "Date::to_string/not-the-canonical-text", case(), format!("jiff {:?} canonical {:?}", text, rfmt::fmt_date(y, m, d)));
+                }
                 if text.len() == 10 {
                     n4 += 1;
                 } else {
@@ -175,6 +227,10 @@ fn sec_time(r: &Report) {
                         }
                     }
                 }
+                let canon = rfmt::fmt_time((s as i128) * NS + ns as i128, None);
+                if text != canon {
+                    r.viol("time", "Time::to_string/not-the-canonical-text", case(), format!("jiff {:?} canonical {:?}", text, canon));
+                }
                 match rfmt::read_time(&text) {
                     Err(e) => r.viol("time", "Time::to_string/reader-grammar", case(), format!("text {:?}: {}", text, e)),
                     Ok(rd) => {
@@ -220,6 +276,10 @@ fn check_datetime(r: &Report, section: &str, v: DateTime) {
                 r.viol(section, "DateTime::from_str(to_string)/value", case(), format!("text {:?} parsed {:?}", text, b));
             }
         }
+    }
+    let canon = rfmt::fmt_civil(civil, b'T', None);
+    if text != canon {
+        r.viol(section, "DateTime::to_string/not-the-canonical-text", case(), format!("jiff {:?} canonical {:?}", text, canon));
     }
     match rfmt::read_full(&text, false, false) {
         Err(e) => r.viol(section, "DateTime::to_string/reader-grammar", case(), format!("text {:?}: {}", text, e)),
@@ -328,6 +388,10 @@ fn check_timestamp(r: &Report, section: &str, t_ns: i128) {
                 r.viol(section, &format!("Timestamp::from_str(to_string)/{}", cl), case(), format!("text {:?} parsed {:?} ({}s {}ns)", text, b, b.as_second(), b.subsec_nanosecond()));
             }
         }
+    }
+    let canon = format!("{}Z", rfmt::fmt_civil(t_ns, b'T', None));
+    if text != canon {
+        r.viol(section, "Timestamp::to_string/not-the-canonical-text", case(), format!("jiff {:?} canonical {:?}", text, canon));
     }
     match rfmt::read_full(&text, true, false) {
         Err(e) => r.viol(section, "Timestamp::to_string/reader-grammar", case(), format!("text {:?}: {}", text, e)),
@@ -445,6 +509,17 @@ fn check_ts_offset(r: &Report, section: &str, t_ns: i128, off: i32) {
         Ok(x) => x,
     };
     let cls = if rounds_to_26 { "[|offset|>=25:59:30]" } else if whole { "" } else { "[subminute-offset]" };
+    // documented form: the civil reading at the exact offset, followed by the
+    // offset rounded to the minute (never Z, never -00:00 for a zero offset)
+    // An offset in (-30 s, 0) rounds to zero: "the offset is known and is
+    // zero" is written +00:00; the documentation rules -00:00 out ("will
+    // never write either Z or -00:00"). That input class has its own name.
+    let negzero = off < 0 && off > -30;
+    let canon = format!("{}{}", rfmt::fmt_civil(t_ns + off as i128 * NS, b'T', None), if negzero { "+00:00".to_string() } else { rfmt::fmt_offset_min(off as i64) });
+    if text != canon {
+        let k = if negzero { "[-30s<offset<0:printed-as--00:00]" } else { cls };
+        r.viol(section, &format!("Timestamp::display_with_offset/not-the-canonical-text{}", k), case(), format!("jiff {:?} canonical {:?}", text, canon));
+    }
     let rd = match rfmt::read_full(&text, true, false) {
         Err(e) => {
             r.viol(section, &format!("Timestamp::display_with_offset/reader-grammar{}", cls), case(), format!("text {:?}: {}", text, e));
@@ -538,6 +613,13 @@ struct Cls {
     /// in a fold whose two offsets are printed as the same whole minute: the
     /// RFC 9557 text then carries no information about which side is meant
     same_minute: bool,
+    /// the model's offset at the instant (seconds east)
+    off: i64,
+    /// more than two instants share the civil reading (pathological data)
+    many_preimages: bool,
+    /// the earliest and latest instant (unix seconds) with this civil reading
+    pre_first: i64,
+    pre_last: i64,
 }
 
 impl Cls {
@@ -611,7 +693,9 @@ fn classify(z: &rtz::Zone, t_ns: i128, printed_ns: i128) -> Cls {
     let round_min = |o: i32| -> i32 { o.signum() * ((o.abs() + 30) / 60) };
     let same_minute = pre.len() == 2
         && round_min(z.infos[z.pieces[pre[0].1].info as usize].utoff) == round_min(z.infos[z.pieces[pre[1].1].info as usize].utoff);
-    Cls { fold, submin, f2, f7, f13, same_minute }
+    let pre_first = pre.iter().map(|p| p.0).min().unwrap_or(sec);
+    let pre_last = pre.iter().map(|p| p.0).max().unwrap_or(sec);
+    Cls { fold, submin, f2, f7, f13, same_minute, off, many_preimages: pre.len() > 2, pre_first, pre_last }
 }
 
 #[derive(Default)]
@@ -622,6 +706,8 @@ struct ZStats {
     both: u64,
     f2: u64,
     reader: u64,
+    canon: u64,
+    smaller: u64,
 }
 
 /// One Zoned round trip. `want_ann` is the annotation the text must carry.
@@ -639,6 +725,7 @@ fn check_zoned(
     opt: Option<&Opt>,
     st: &mut ZStats,
     offsets_seen: Option<&Mutex<BTreeSet<String>>>,
+    extras: bool,
 ) {
     // expected value: the original truncated to the printed precision
     let want_ns = match opt {
@@ -710,7 +797,50 @@ fn check_zoned(
             }
         }
     }
-    match rfmt::read_full(&text, true, true) {
+    // text -> value -> text: the canonical text written independently from the
+    // model (civil reading at the model's offset, that offset rounded to the
+    // minute, the annotation) is what jiff printed and has just re-parsed.
+    // Not judged inside the F7 window, where jiff's offset is the known wrong one.
+    if model.is_some() && !cls.f7 {
+        let (sep, prec) = match opt {
+            None => (b'T', None),
+            Some(o) => (o.printed_sep(), o.precision),
+        };
+        let negzero = cls.off < 0 && cls.off > -30;
+        let offs = if negzero { "+00:00".to_string() } else { rfmt::fmt_offset_min(cls.off) };
+        let canon = format!("{}{}[{}]", rfmt::fmt_civil(want_ns + cls.off as i128 * NS, sep, prec), offs, want_ann);
+        st.canon += 1;
+        if text != canon {
+            let k = if negzero { "[-30s<offset<0:printed-as--00:00]" } else { "" };
+            r.viol(section, &format!("{}/not-the-canonical-text{}", op, k), case(), format!("jiff {:?} canonical {:?}", text, canon));
+        }
+    }
+    let rdres = rfmt::read_full(&text, true, true);
+    if extras && opt.is_none() {
+        if let Ok(rd) = &rdres {
+            smaller_types_from_text(r, section, "Zoned::to_string", &case(), &text, rd);
+            st.smaller += 4;
+        }
+        pieces_from_zoned(r, section, &case(), &z, &text);
+        st.smaller += 1;
+        // "we also support parsing the actual fractional minute offset": the
+        // same text with the offset at full precision denotes the original
+        // instant exactly, on either side of any fold
+        if model.is_some() && !cls.f7 && cls.off % 60 != 0 {
+            let full = format!("{}{}[{}]", rfmt::fmt_civil(t_ns + cls.off as i128 * NS, b'T', None), rfmt::fmt_offset_full(cls.off), want_ann);
+            st.smaller += 1;
+            match guard(|| parse(&full).map(|b| (b.timestamp().as_nanosecond(), b.offset().seconds() as i64))) {
+                Err(p) => r.viol(section, &format!("Zoned::from_str(text-with-full-precision-offset)/{}", panic_sig(&p)), case(), p),
+                Ok(Err(e)) => r.viol(section, "Zoned::from_str(text-with-full-precision-offset)/parse-error", case(), format!("text {:?}: {}", full, e)),
+                Ok(Ok((g, goff))) => {
+                    if g != t_ns || goff != cls.off {
+                        r.viol(section, "Zoned::from_str(text-with-full-precision-offset)/instant", case(), format!("text {:?} parsed {} ns offset {} want {} ns offset {}", full, g, goff, t_ns, cls.off));
+                    }
+                }
+            }
+        }
+    }
+    match &rdres {
         Err(e) => r.viol(section, &format!("{}/reader-grammar{}", op, sfx), case(), format!("text {:?}: {}", text, e)),
         Ok(rd) => {
             if rd.ann.as_deref() != Some(want_ann) {
@@ -738,10 +868,107 @@ fn check_zoned(
     }
 }
 
+
+/// "Smaller types can generally be parsed from strings representing a bigger
+/// type": the printed text of a zoned datetime (or of a timestamp with a
+/// numeric offset) read as a Timestamp (the offset is used, the annotation
+/// ignored), a civil DateTime, Date and Time. Expected values are what the
+/// independent reader decodes from the text.
+fn smaller_types_from_text(r: &Report, section: &str, src: &str, case: &str, text: &str, rd: &rfmt::Read) {
+    // Timestamp
+    if let Some(inst) = rd.instant_ns() {
+        let in_range = inst >= ts_min() && inst <= ts_max();
+        match guard(|| text.parse::<Timestamp>()) {
+            Err(p) => r.viol(section, &format!("Timestamp::from_str({})/{}", src, panic_sig(&p)), case, p),
+            Ok(Err(e)) => {
+                if in_range {
+                    r.viol(section, &format!("Timestamp::from_str({})/parse-error", src), case, format!("text {:?}: {}", text, e));
+                }
+            }
+            Ok(Ok(b)) => {
+                if !in_range {
+                    r.viol(section, &format!("Timestamp::from_str({})/accepted-out-of-range", src), case, format!("text {:?} parsed {:?}", text, b));
+                } else if let Some(cl) = ts_mismatch(b, inst) {
+                    let k = f13_class(rd).filter(|_| cl == "not-equal-value").map(|c| format!("[{}]", c)).unwrap_or_default();
+                    r.viol(section, &format!("Timestamp::from_str({})/{}{}", src, cl, k), case, format!("text {:?} parsed {:?} want ns {}", text, b, inst));
+                }
+            }
+        }
+    }
+    // civil types
+    let civil = rd.civil_ns().unwrap();
+    match guard(|| text.parse::<DateTime>()) {
+        Err(p) => r.viol(section, &format!("DateTime::from_str({})/{}", src, panic_sig(&p)), case, p),
+        Ok(Err(e)) => r.viol(section, &format!("DateTime::from_str({})/parse-error", src), case, format!("text {:?}: {}", text, e)),
+        Ok(Ok(b)) => {
+            if conv::dt_civil_ns(b) != civil {
+                r.viol(section, &format!("DateTime::from_str({})/value", src), case, format!("text {:?} parsed {}", text, b));
+            }
+        }
+    }
+    match guard(|| text.parse::<Date>()) {
+        Err(p) => r.viol(section, &format!("Date::from_str({})/{}", src, panic_sig(&p)), case, p),
+        Ok(Err(e)) => r.viol(section, &format!("Date::from_str({})/parse-error", src), case, format!("text {:?}: {}", text, e)),
+        Ok(Ok(b)) => {
+            if Some(conv::date_ymd(b)) != rd.ymd {
+                r.viol(section, &format!("Date::from_str({})/value", src), case, format!("text {:?} parsed {}", text, b));
+            }
+        }
+    }
+    match guard(|| text.parse::<Time>()) {
+        Err(p) => r.viol(section, &format!("Time::from_str({})/{}", src, panic_sig(&p)), case, p),
+        Ok(Err(e)) => r.viol(section, &format!("Time::from_str({})/parse-error", src), case, format!("text {:?}: {}", text, e)),
+        Ok(Ok(b)) => {
+            if conv::time_ns(b) != civil.rem_euclid(conv::DAY_NS) {
+                r.viol(section, &format!("Time::from_str({})/value", src), case, format!("text {:?} parsed {}", text, b));
+            }
+        }
+    }
+}
+
+/// `Pieces::from(&Zoned)` "populates all fields": its text is the zoned
+/// datetime's own text, and it parses back to equal pieces (whole-minute
+/// offsets) resp. to pieces that print the same text again (sub-minute
+/// offsets, rounded by design).
+fn pieces_from_zoned(r: &Report, section: &str, case: &str, z: &Zoned, text: &str) {
+    let whole = z.offset().seconds() % 60 == 0;
+    let res = guard(|| {
+        let p = Pieces::from(z);
+        let s = p.to_string();
+        let back = match Pieces::parse(&s) {
+            Err(e) => Err(e.to_string()),
+            Ok(b) => Ok((b == p, b.to_string() == s)),
+        };
+        (s, back)
+    });
+    match res {
+        Err(p) => r.viol(section, &format!("Pieces::from(&Zoned)::to_string->parse/{}", panic_sig(&p)), case, p),
+        Ok((s, back)) => {
+            if s != text {
+                r.viol(section, "Pieces::from(&Zoned)::to_string/differs-from-Zoned::to_string", case, format!("pieces {:?} zoned {:?}", s, text));
+            }
+            match back {
+                Err(e) => r.viol(section, "Pieces::parse(Pieces::from(&Zoned)::to_string)/parse-error", case, format!("text {:?}: {}", s, e)),
+                Ok((eq, fix)) => {
+                    if whole && !eq {
+                        r.viol(section, "Pieces::parse(Pieces::from(&Zoned)::to_string)/value", case, format!("text {:?} parses to different pieces", s));
+                    }
+                    if !fix {
+                        r.viol(section, "Pieces::parse(Pieces::from(&Zoned)::to_string)/reprints-differently", case, format!("text {:?}", s));
+                    }
+                }
+            }
+        }
+    }
+}
+
 fn flush_stats(r: &Report, st: &ZStats) {
     r.add_states(st.n);
     r.add_transitions(3 * st.n);
-    r.add_validated(st.n + st.reader);
+    r.add_validated(st.n + st.reader + st.canon + st.smaller);
+    r.add_transitions(st.smaller);
+    r.count("zoned_canonical_texts_compared", st.canon);
+    r.count("zoned_text_parsed_as_other_types", st.smaller);
     r.count("zoned_cases", st.n);
     r.count("zoned_in_fold", st.fold);
     r.count("zoned_subminute_offset", st.submin);
@@ -790,7 +1017,7 @@ fn run_zone_jobs(r: &Report, section: &str, jobs: &[ZJob], parse: &(dyn Fn(&str)
         v.dedup();
         let mut st = ZStats::default();
         for &t in &v {
-            check_zoned(r, section, &job.name, &job.name, &job.tz, Some(&job.model), t, parse, None, &mut st, Some(&seen));
+            check_zoned(r, section, &job.name, &job.name, &job.tz, Some(&job.model), t, parse, None, &mut st, Some(&seen), true);
         }
         flush_stats(r, &st);
     });
@@ -938,7 +1165,7 @@ fn sec_zoned_fixed(r: &Report) {
             let fm = rtz::zone_fixed(off, "");
             let mut st = ZStats::default();
             for &t in &tss {
-                check_zoned(r, "zoned_fixed", &format!("fixed{}", off), &name, &tz, Some(&fm), t, &parse, None, &mut st, None);
+                check_zoned(r, "zoned_fixed", &format!("fixed{}", off), &name, &tz, Some(&fm), t, &parse, None, &mut st, None, true);
             }
             flush_stats(r, &st);
         });
@@ -1059,6 +1286,10 @@ fn sec_options(r: &Report) {
                     Err(p) => r.viol("options", &format!("DateTimePrinter::time_to_string->parse_time/{}", panic_sig(&p)), case(), p),
                     Ok((text, back)) => {
                         let want = o.truncate(tn);
+                        let canon = rfmt::fmt_time(tn, o.precision);
+                        if text != canon {
+                            r.viol("options", "DateTimePrinter::time_to_string/not-the-documented-text", case(), format!("jiff {:?} documented {:?}", text, canon));
+                        }
                         match back {
                             Err(e) => r.viol("options", "DateTimePrinter::time_to_string->parse_time/parse-error", case(), format!("text {:?}: {}", text, e)),
                             Ok(b) => {
@@ -1092,6 +1323,10 @@ fn sec_options(r: &Report) {
                     Err(p) => r.viol("options", &format!("DateTimePrinter::datetime_to_string->parse_datetime/{}", panic_sig(&p)), case(), p),
                     Ok((text, back)) => {
                         let want = o.truncate(cn);
+                        let canon = rfmt::fmt_civil(cn, o.printed_sep(), o.precision);
+                        if text != canon {
+                            r.viol("options", "DateTimePrinter::datetime_to_string/not-the-documented-text", case(), format!("jiff {:?} documented {:?}", text, canon));
+                        }
                         match back {
                             Err(e) => r.viol("options", "DateTimePrinter::datetime_to_string->parse_datetime/parse-error", case(), format!("text {:?}: {}", text, e)),
                             Ok(b) => {
@@ -1148,6 +1383,15 @@ fn sec_options(r: &Report) {
                         Err(p) => r.viol("options", &format!("{}->parse_timestamp/{}", op, panic_sig(&p)), case(), p),
                         Ok((text, back)) => {
                             let want = o.truncate(t);
+                            // separator and Z follow `lowercase`; a numeric offset is
+                            // rounded to the minute; the fraction has the set precision
+                            let canon = match off {
+                                None => format!("{}{}", rfmt::fmt_civil(t, o.printed_sep(), o.precision), if o.lower { 'z' } else { 'Z' }),
+                                Some(s) => format!("{}{}", rfmt::fmt_civil(t + s as i128 * NS, o.printed_sep(), o.precision), rfmt::fmt_offset_min(s as i64)),
+                            };
+                            if text != canon {
+                                r.viol("options", &format!("{}/not-the-documented-text", op), case(), format!("jiff {:?} documented {:?}", text, canon));
+                            }
                             let rd = rfmt::read_full(&text, true, false);
                             match &rd {
                                 Err(e) => r.viol("options", &format!("{}/reader-grammar", op), case(), format!("text {:?}: {}", text, e)),
@@ -1254,7 +1498,7 @@ fn sec_options(r: &Report) {
             let mut st = ZStats::default();
             for &t in probes {
                 tally(o, t);
-                check_zoned(r, "options", name, name, tz, Some(model), t, &parse, Some(o), &mut st, None);
+                check_zoned(r, "options", name, name, tz, Some(model), t, &parse, Some(o), &mut st, None, false);
             }
             flush_stats(r, &st);
         });
@@ -1262,5 +1506,1352 @@ fn sec_options(r: &Report) {
         r.count("options_lossy", n_lossy.load(Relaxed));
         r.count("options_lossless", n_lossless.load(Relaxed));
         r.count("options_configs", opts.len() as u64);
+    });
+}
+
+// ---------------------------------------------------------------------------
+// DateTimeParser options: offset_conflict x disambiguation on printed Zoned
+// ---------------------------------------------------------------------------
+
+const CONFLICTS: [(OffsetConflict, &str); 4] = [
+    (OffsetConflict::Reject, "Reject"),
+    (OffsetConflict::PreferOffset, "PreferOffset"),
+    (OffsetConflict::AlwaysOffset, "AlwaysOffset"),
+    (OffsetConflict::AlwaysTimeZone, "AlwaysTimeZone"),
+];
+const DISAMBS: [(Disambiguation, &str); 4] = [
+    (Disambiguation::Compatible, "Compatible"),
+    (Disambiguation::Earlier, "Earlier"),
+    (Disambiguation::Later, "Later"),
+    (Disambiguation::Reject, "Reject"),
+];
+
+/// What the documentation of the two options says a printed zoned datetime
+/// (civil reading c of instant t, offset o printed rounded to the minute as
+/// p, zone z) parses to:
+///
+/// * Reject / PreferOffset: p is valid for (c, z) under the rounding-tolerant
+///   comparison, so the result is unambiguous: t, whatever the disambiguation;
+/// * AlwaysOffset: the instant the text itself denotes, c - p (= t when o is a
+///   whole minute), whatever the disambiguation;
+/// * AlwaysTimeZone: the offset is ignored; c is resolved in z: unique -> t; in
+///   a fold Compatible/Earlier -> the earliest instant reading c, Later -> the
+///   latest, Reject -> an error. (c is never in a gap: it was read off a clock.)
+enum Want {
+    Instant(i128),
+    Error,
+    Skip,
+}
+
+fn sec_parser_options(r: &Report) {
+    r.section("parser_options", || {
+        let db = jiff::tz::db();
+        let quick = r.quick();
+        let mut reps = zones::rep();
+        // a zone with a fold whose two offsets print as the same minute (F31):
+        // there only Reject/PreferOffset are excluded, the other strategies are defined
+        if let Ok(bytes) = std::fs::read(format!("{}/Israel", zones::SYS_DIR)) {
+            reps.push(zones::ZoneSrc { name: "Israel".into(), origin: "sys".into(), bytes, aliases: vec![] });
+        }
+        let parsers: Vec<(DateTimeParser, &str, &str, usize, usize)> = CONFLICTS
+            .iter()
+            .enumerate()
+            .flat_map(|(ci, (c, cn))| DISAMBS.iter().enumerate().map(move |(di, (d, dn))| (DateTimeParser::new().offset_conflict(*c).disambiguation(*d), *cn, *dn, ci, di)))
+            .collect();
+        // tasks: (zone, chunk of probe instants)
+        let mut loaded: Vec<(String, rtz::Zone, TimeZone, Vec<i128>)> = vec![];
+        for z in &reps {
+            let Ok(model) = rtz::zone_from_tzif(&z.bytes) else { continue };
+            let Ok(Ok(tz)) = guard(|| db.get(&z.name)) else { continue };
+            let mut v = zone_edge_probes(&model);
+            v.extend(vf::pools::timestamps().into_iter().map(|t| t.as_nanosecond()));
+            let ks = if quick { zones::probe_pieces(&model, &|y| y <= 2100) } else { zones::probe_pieces(&model, &|_| true) };
+            for k in ks {
+                probes_for_piece(&model, k, &mut v);
+            }
+            clip(&mut v);
+            v.sort_unstable();
+            v.dedup();
+            loaded.push((z.name.clone(), model, tz, v));
+        }
+        let mut tasks: Vec<(usize, usize, usize)> = vec![];
+        for (zi, l) in loaded.iter().enumerate() {
+            let mut i = 0;
+            while i < l.3.len() {
+                let e = (i + 2048).min(l.3.len());
+                tasks.push((zi, i, e));
+                i = e;
+            }
+        }
+        tasks.par_iter().for_each(|&(zi, a, b)| {
+            let (name, model, tz, probes) = &loaded[zi];
+            let (mut n, mut n_skip, mut n_err, mut n_fold_later, mut n_shift) = (0u64, 0u64, 0u64, 0u64, 0u64);
+            for &t in &probes[a..b] {
+                let cls = classify(model, t, t);
+                let Ok((text, ztz)) = guard(|| {
+                    let z = Timestamp::from_nanosecond(t).unwrap().to_zoned(tz.clone());
+                    (z.to_string(), z.time_zone().clone())
+                }) else {
+                    continue; // reported by the zoned sections
+                };
+                let Ok(rd) = rfmt::read_full(&text, true, true) else { continue };
+                let frac = t.rem_euclid(NS);
+                for (parser, cn, dn, ci, di) in &parsers {
+                    n += 1;
+                    let want = if cls.f7 {
+                        Want::Skip
+                    } else {
+                        match ci {
+                            0 | 1 => {
+                                if cls.same_minute {
+                                    Want::Skip // F31: the text cannot say which side
+                                } else {
+                                    Want::Instant(t)
+                                }
+                            }
+                            2 => match rd.instant_ns() {
+                                Some(i) if i >= ts_min() && i <= ts_max() => Want::Instant(i),
+                                _ => Want::Skip,
+                            },
+                            _ => {
+                                if cls.many_preimages {
+                                    Want::Skip
+                                } else if !cls.fold {
+                                    Want::Instant(t)
+                                } else {
+                                    match di {
+                                        0 | 1 => Want::Instant(cls.pre_first as i128 * NS + frac),
+                                        2 => Want::Instant(cls.pre_last as i128 * NS + frac),
+                                        _ => Want::Error,
+                                    }
+                                }
+                            }
+                        }
+                    };
+                    // non-vacuity counters come from the model's expectation, not from jiff
+                    match want {
+                        Want::Skip => n_skip += 1,
+                        Want::Error => n_err += 1,
+                        Want::Instant(w) if w != t => {
+                            if *ci == 2 {
+                                n_shift += 1;
+                            } else {
+                                n_fold_later += 1;
+                            }
+                        }
+                        _ => {}
+                    }
+                    let op = format!("DateTimeParser[offset_conflict={},disambiguation={}]::parse_zoned(Zoned::to_string)", cn, dn);
+                    let case = || format!("zoned zone={} t={} offset_conflict={} disambiguation={}", name, conv::fmt_ns(t), cn, dn);
+                    let sfx = cls.suffix();
+                    let got = guard(|| parser.parse_zoned(&text).map(|b| (b.timestamp().as_nanosecond(), b.time_zone() == &ztz, b.offset().seconds())));
+                    match (want, got) {
+                        (_, Err(p)) => r.viol("parser_options", &format!("{}/{}{}", op, panic_sig(&p), sfx), case(), p),
+                        (Want::Skip, Ok(_)) | (Want::Error, Ok(Err(_))) => {}
+                        (Want::Error, Ok(Ok(b))) => r.viol("parser_options", &format!("{}/ambiguous-civil-time-accepted{}", op, sfx), case(), format!("text {:?} parsed to {} ns", text, b.0)),
+                        (Want::Instant(_), Ok(Err(e))) => r.viol("parser_options", &format!("{}/parse-error{}", op, sfx), case(), format!("text {:?}: {}", text, e)),
+                        (Want::Instant(w), Ok(Ok((g, same_tz, _)))) => {
+                            if g != w {
+                                r.viol("parser_options", &format!("{}/instant{}", op, sfx), case(), format!("text {:?} parsed to {} ns, documented result {} ns (original {} ns)", text, g, w, t));
+                            } else if !same_tz {
+                                r.viol("parser_options", &format!("{}/time-zone", op), case(), format!("text {:?}", text));
+                            }
+                        }
+                    }
+                }
+            }
+            r.add_states((b - a) as u64);
+            r.add_transitions(n);
+            r.add_validated(n - n_skip);
+            r.count("parser_options_cases", n);
+            r.count("parser_options_excluded_known_or_undefined", n_skip);
+            r.count("parser_options_ambiguity_errors_expected", n_err);
+            r.count("parser_options_result_differs_from_original_in_fold", n_fold_later);
+            r.count("parser_options_always_offset_shifted_by_rounding", n_shift);
+        });
+        r.count("parser_options_zones", loaded.len() as u64);
+    });
+}
+
+// ---------------------------------------------------------------------------
+// Pieces: value -> text -> value over every combination of presence
+// ---------------------------------------------------------------------------
+
+#[derive(Clone, Copy, Debug, PartialEq, Eq)]
+enum MOff {
+    Zulu,
+    /// seconds east; `negzero` = "written -00:00" (meaningful only for 0)
+    Num { secs: i64, negzero: bool },
+}
+
+#[derive(Clone, Debug, PartialEq, Eq)]
+enum MAnn {
+    Name(String),
+    Off(i64),
+}
+
+/// A model of a `Pieces` value, and also what is compared: everything the
+/// public accessors of `Pieces` expose.
+#[derive(Clone, Debug, PartialEq, Eq)]
+struct MPieces {
+    ymd: (i64, i64, i64),
+    time: Option<i128>,
+    off: Option<MOff>,
+    ann: Option<MAnn>,
+    critical: bool,
+}
+
+impl MPieces {
+    /// The jiff value (the critical flag cannot be set through the API).
+    fn build(&self) -> Pieces<'_> {
+        let d = Date::new(self.ymd.0 as i16, self.ymd.1 as i8, self.ymd.2 as i8).unwrap();
+        let mut p = Pieces::from(d);
+        if let Some(t) = self.time {
+            p = p.with_time(conv::time_from_ns(t));
+        }
+        match self.off {
+            None => {}
+            Some(MOff::Zulu) => p = p.with_offset(PiecesOffset::Zulu),
+            Some(MOff::Num { secs, negzero }) => {
+                let o = Offset::from_seconds(secs as i32).unwrap();
+                if negzero {
+                    p = p.with_offset(PiecesNumericOffset::from(o).with_negative_zero());
+                } else {
+                    p = p.with_offset(o);
+                }
+            }
+        }
+        match &self.ann {
+            None => p,
+            Some(MAnn::Name(n)) => p.with_time_zone_name(n),
+            Some(MAnn::Off(s)) => p.with_time_zone_offset(Offset::from_seconds(*s as i32).unwrap()),
+        }
+    }
+    /// What the accessors of a jiff `Pieces` show.
+    fn view(p: &Pieces) -> MPieces {
+        let off = p.offset().map(|o| match o {
+            PiecesOffset::Zulu => MOff::Zulu,
+            PiecesOffset::Numeric(n) => {
+                let secs = n.offset().seconds() as i64;
+                MOff::Num { secs, negzero: secs == 0 && n.is_negative() }
+            }
+            _ => MOff::Num { secs: i64::MIN, negzero: false },
+        });
+        let (ann, critical) = match p.time_zone_annotation() {
+            None => (None, false),
+            Some(a) => (
+                Some(match a.kind() {
+                    TimeZoneAnnotationKind::Named(n) => MAnn::Name(n.as_str().to_string()),
+                    TimeZoneAnnotationKind::Offset(o) => MAnn::Off(o.seconds() as i64),
+                    _ => MAnn::Name("<unknown kind>".into()),
+                }),
+                a.is_critical(),
+            ),
+        };
+        MPieces { ymd: conv::date_ymd(p.date()), time: p.time().map(conv::time_ns), off, ann, critical }
+    }
+    /// The documented text: the time is written when present or when an
+    /// offset is (midnight then); offsets are rounded to the minute, the sign
+    /// being the offset's own (the recorded sign for zero).
+    fn text(&self, sep: u8, lower: bool, prec: Option<u8>) -> String {
+        let mut s = rfmt::fmt_date(self.ymd.0, self.ymd.1, self.ymd.2);
+        if self.time.is_some() || self.off.is_some() {
+            s.push(sep as char);
+            s.push_str(&rfmt::fmt_time(self.time.unwrap_or(0), prec));
+        }
+        match self.off {
+            None => {}
+            Some(MOff::Zulu) => s.push(if lower { 'z' } else { 'Z' }),
+            Some(MOff::Num { secs: 0, negzero: true }) => s.push_str("-00:00"),
+            Some(MOff::Num { secs, .. }) => s.push_str(&rfmt::fmt_offset_min(secs)),
+        }
+        match &self.ann {
+            None => {}
+            Some(a) => {
+                s.push('[');
+                if self.critical {
+                    s.push('!');
+                }
+                match a {
+                    MAnn::Name(n) => s.push_str(n),
+                    MAnn::Off(o) => s.push_str(&rfmt::fmt_offset_min(*o)),
+                }
+                s.push(']');
+            }
+        }
+        s
+    }
+    /// What the printed text parses back to (documented losses only: the
+    /// forced midnight, minute rounding of offsets, fraction truncation).
+    fn after_round_trip(&self, prec: Option<u8>) -> MPieces {
+        let trunc = |t: i128| match prec {
+            None => t,
+            Some(p) => {
+                let u = 10i128.pow(9 - p.min(9) as u32);
+                t / u * u
+            }
+        };
+        let time = match (self.time, self.off) {
+            (Some(t), _) => Some(trunc(t)),
+            (None, Some(_)) => Some(0),
+            (None, None) => None,
+        };
+        let off = self.off.map(|o| match o {
+            MOff::Zulu => MOff::Zulu,
+            MOff::Num { secs, negzero } => {
+                let r = rfmt::round_offset_to_minute(secs);
+                MOff::Num { secs: r, negzero: secs == 0 && negzero }
+            }
+        });
+        let ann = self.ann.clone().map(|a| match a {
+            MAnn::Off(s) => MAnn::Off(rfmt::round_offset_to_minute(s)),
+            n => n,
+        });
+        MPieces { ymd: self.ymd, time, off, ann, critical: self.critical }
+    }
+    fn describe(&self) -> String {
+        format!("pieces date={:?} time={:?} offset={:?} annotation={:?} critical={}", self.ymd, self.time, self.off, self.ann, self.critical)
+    }
+}
+
+const PIECES_OFFS: [i64; 28] = [
+    60, -60, 19_800, -19_800, -18_000, 50_400, 93_540, -93_540, 45_240, 1, -1, 29, -29, 30, -30, 59, -59, -2_670, 3_599, -3_599, 86_370, 93_569, 93_570, -93_570, 93_599,
+    -93_599, 86_340, -86_340,
+];
+
+fn pieces_alphabet(small: bool) -> Vec<MPieces> {
+    let dates: Vec<(i64, i64, i64)> = if small {
+        vec![(2024, 2, 29), (-9999, 1, 1), (0, 1, 1)]
+    } else {
+        vf::pools::dates().into_iter().map(conv::date_ymd).collect()
+    };
+    let mut times: Vec<Option<i128>> = vec![None];
+    if small {
+        for t in [0i128, 25_689 * NS + 1, 25_689 * NS + 120_000_000, 86_399 * NS + 999_999_999, 43_200 * NS + 500_000_000] {
+            times.push(Some(t));
+        }
+    } else {
+        times.extend(vf::pools::times().into_iter().map(|t| Some(conv::time_ns(t))));
+        times.extend(SUBSEC.iter().map(|&ns| Some(25_689 * NS + ns as i128)));
+    }
+    let mut offs: Vec<Option<MOff>> = vec![None, Some(MOff::Zulu), Some(MOff::Num { secs: 0, negzero: false }), Some(MOff::Num { secs: 0, negzero: true })];
+    let olist: &[i64] = if small { &[19_800, -18_000, -20, -2_670] } else { &PIECES_OFFS };
+    offs.extend(olist.iter().map(|&s| Some(MOff::Num { secs: s, negzero: false })));
+    let mut anns: Vec<Option<MAnn>> = vec![None, Some(MAnn::Name("America/New_York".into())), Some(MAnn::Off(19_800)), Some(MAnn::Off(-2_670))];
+    if !small {
+        for n in ["UTC", "Australia/Bluey", "Etc/GMT+5", "America/Argentina/ComodRivadavia"] {
+            anns.push(Some(MAnn::Name(n.into())));
+        }
+        for o in [0i64, -18_000, 93_599, -20, -93_570, 86_370] {
+            anns.push(Some(MAnn::Off(o)));
+        }
+    }
+    let mut v = vec![];
+    for &ymd in &dates {
+        for &time in &times {
+            for &off in &offs {
+                for ann in &anns {
+                    v.push(MPieces { ymd, time, off, ann: ann.clone(), critical: false });
+                }
+            }
+        }
+    }
+    v
+}
+
+/// One print -> parse trip of a `Pieces`. `how` names the printing entry
+/// point; `text` is what it produced.
+fn check_pieces_text(r: &Report, op: &str, m: &MPieces, text: &str, sep: u8, lower: bool, prec: Option<u8>, extra: &str) {
+    let case = || format!("{}{}", m.describe(), extra);
+    let canon = m.text(sep, lower, prec);
+    if text != canon {
+        r.viol("pieces", &format!("{}/not-the-documented-text", op), case(), format!("jiff {:?} documented {:?}", text, canon));
+    }
+    let want = m.after_round_trip(prec);
+    // the independent reader
+    match rfmt::read_pieces(text) {
+        Err(e) => r.viol("pieces", &format!("{}/reader-grammar", op), case(), format!("text {:?}: {}", text, e)),
+        Ok(rd) => {
+            let off = rd.off.as_ref().map(|o| match o {
+                Off::Zulu => MOff::Zulu,
+                Off::Num { secs, neg } => MOff::Num { secs: *secs, negzero: *secs == 0 && *neg },
+            });
+            let ann = rd.ann.as_ref().map(|a| {
+                if a.starts_with('+') || a.starts_with('-') {
+                    let neg = a.starts_with('-');
+                    let h: i64 = a[1..3].parse().unwrap();
+                    let mi: i64 = a[4..6].parse().unwrap();
+                    MAnn::Off((h * 3600 + mi * 60) * if neg { -1 } else { 1 })
+                } else {
+                    MAnn::Name(a.clone())
+                }
+            });
+            let got = MPieces { ymd: rd.ymd.unwrap(), time: rd.time.map(|t| ((t.0 * 3600 + t.1 * 60 + t.2) as i128) * NS + t.3 as i128), off, ann, critical: rd.critical };
+            if got != want {
+                r.viol("pieces", &format!("{}/reader-value", op), case(), format!("text {:?} read {:?} want {:?}", text, got, want));
+            }
+        }
+    }
+    // jiff's two parsing entry points
+    for (pname, which) in [("Pieces::parse", 0), ("DateTimeParser::parse_pieces", 1)] {
+        let got = guard(|| {
+            let b = if which == 0 { Pieces::parse(text) } else { PARSER.parse_pieces(text) };
+            b.map(|b| (MPieces::view(&b), b.to_string())).map_err(|e| e.to_string())
+        });
+        match got {
+            Err(p) => r.viol("pieces", &format!("{}({})/{}", pname, op, panic_sig(&p)), case(), p),
+            Ok(Err(e)) => r.viol("pieces", &format!("{}({})/parse-error", pname, op), case(), format!("text {:?}: {}", text, e)),
+            Ok(Ok((v, again))) => {
+                if v != want {
+                    r.viol("pieces", &format!("{}({})/value", pname, op), case(), format!("text {:?} parsed {:?} want {:?}", text, v, want));
+                } else if again != want.text(b'T', false, None) {
+                    r.viol("pieces", &format!("{}({})/reprints-differently", pname, op), case(), format!("text {:?} reprinted {:?}", text, again));
+                }
+            }
+        }
+    }
+}
+
+fn sec_pieces(r: &Report) {
+    r.section("pieces", || {
+        let all = pieces_alphabet(false);
+        all.par_iter().for_each(|m| {
+            let res = guard(|| {
+                let p = m.build();
+                let view = MPieces::view(&p);
+                let a = p.to_string();
+                let b = DateTimePrinter::new().pieces_to_string(&p);
+                let mut c: Vec<u8> = vec![];
+                let cres = DateTimePrinter::new().print_pieces(&p, &mut c).map_err(|e| e.to_string());
+                (view, a, b, c, cres)
+            });
+            match res {
+                Err(p) => r.viol("pieces", &format!("Pieces::to_string/{}", panic_sig(&p)), m.describe(), p),
+                Ok((view, a, b, c, cres)) => {
+                    if &view != m {
+                        r.viol("pieces", "Pieces::with_*/accessors-differ-from-what-was-set", m.describe(), format!("accessors show {:?}", view));
+                    }
+                    if a != b || cres.is_err() || c != a.as_bytes() {
+                        r.viol("pieces", "DateTimePrinter::print_pieces/differs-from-Pieces::to_string", m.describe(), format!("Display {:?} pieces_to_string {:?} print_pieces {:?} ({:?})", a, b, String::from_utf8_lossy(&c), cres));
+                    }
+                    check_pieces_text(r, "Pieces::to_string", m, &a, b'T', false, None, "");
+                }
+            }
+            r.add_states(1);
+            r.add_transitions(5);
+            r.add_validated(4);
+        });
+        r.count("pieces_values", all.len() as u64);
+        let n_sub = all.iter().filter(|m| matches!(m.off, Some(MOff::Num { secs, .. }) if secs % 60 != 0)).count();
+        let n_forced = all.iter().filter(|m| m.time.is_none() && m.off.is_some()).count();
+        r.count("pieces_subminute_offset", n_sub as u64);
+        r.count("pieces_midnight_forced_by_offset", n_forced as u64);
+
+        // printer options and {:.N} on the small alphabet
+        let small = pieces_alphabet(true);
+        let opts = Opt::all();
+        let fmt_precs: [usize; 16] = FMT_PRECS;
+        small.par_iter().for_each(|m| {
+            for o in &opts {
+                match guard(|| o.printer().pieces_to_string(&m.build())) {
+                    Err(p) => r.viol("pieces", &format!("DateTimePrinter::pieces_to_string/{}", panic_sig(&p)), format!("{}{}", m.describe(), o.name()), p),
+                    Ok(text) => check_pieces_text(r, "DateTimePrinter::pieces_to_string", m, &text, o.printed_sep(), o.lower, o.precision, &o.name()),
+                }
+            }
+            for &p in &fmt_precs {
+                match guard(|| format!("{:.*}", p, m.build())) {
+                    Err(pn) => r.viol("pieces", &format!("Pieces::fmt(precision)/{}", panic_sig(&pn)), format!("{} fmt-precision={}", m.describe(), p), pn),
+                    Ok(text) => check_pieces_text(r, "Pieces::fmt(precision)", m, &text, b'T', false, Some(p.min(9) as u8), &format!(" fmt-precision={}", p)),
+                }
+            }
+            let n = (opts.len() + fmt_precs.len()) as u64;
+            r.add_states(n);
+            r.add_transitions(3 * n);
+            r.add_validated(3 * n);
+        });
+        r.count("pieces_option_cases", (small.len() * (opts.len() + fmt_precs.len())) as u64);
+
+        // the From impls: documented equivalences with the dedicated printers
+        let offs: [i32; 9] = [0, 60, -60, 19_800, -18_000, -2_670, 93_599, -93_570, -20];
+        for t in vf::pools::timestamps() {
+            let tn = t.as_nanosecond();
+            let case = format!("timestamp t={}", conv::fmt_ns(tn));
+            match guard(|| (Pieces::from(t).to_string(), t.to_string(), MPieces::view(&Pieces::from(t)))) {
+                Err(p) => r.viol("pieces", &format!("Pieces::from(Timestamp)/{}", panic_sig(&p)), &case, p),
+                Ok((a, b, v)) => {
+                    let d = cal::civil_from_days(tn.div_euclid(conv::DAY_NS) as i64);
+                    let want = MPieces { ymd: d, time: Some(tn.rem_euclid(conv::DAY_NS)), off: Some(MOff::Zulu), ann: None, critical: false };
+                    if a != b || v != want {
+                        r.viol("pieces", "Pieces::from(Timestamp)/differs-from-Timestamp::to_string", &case, format!("pieces {:?} {:?} timestamp {:?}", a, v, b));
+                    }
+                }
+            }
+            for &o in &offs {
+                let case = format!("timestamp t={} offset={}", conv::fmt_ns(tn), o);
+                match guard(|| {
+                    let off = Offset::from_seconds(o).unwrap();
+                    let p = Pieces::from((t, off));
+                    (p.to_string(), t.display_with_offset(off).to_string(), MPieces::view(&p))
+                }) {
+                    Err(p) => r.viol("pieces", &format!("Pieces::from((Timestamp,Offset))/{}", panic_sig(&p)), &case, p),
+                    Ok((a, b, v)) => {
+                        let c = tn + o as i128 * NS;
+                        let d = cal::civil_from_days(c.div_euclid(conv::DAY_NS) as i64);
+                        let want = MPieces { ymd: d, time: Some(c.rem_euclid(conv::DAY_NS)), off: Some(MOff::Num { secs: o as i64, negzero: false }), ann: None, critical: false };
+                        if a != b || v != want {
+                            r.viol("pieces", "Pieces::from((Timestamp,Offset))/differs-from-display_with_offset", &case, format!("pieces {:?} {:?} display_with_offset {:?}", a, v, b));
+                        }
+                    }
+                }
+                r.add_states(1);
+                r.add_validated(1);
+            }
+        }
+        for dt in vf::pools::datetimes() {
+            let case = format!("datetime {}", dt);
+            match guard(|| (Pieces::from(dt).to_string(), dt.to_string(), Pieces::from(dt.date()).to_string(), dt.date().to_string())) {
+                Err(p) => r.viol("pieces", &format!("Pieces::from(DateTime)/{}", panic_sig(&p)), &case, p),
+                Ok((a, b, c, d)) => {
+                    if a != b || c != d {
+                        r.viol("pieces", "Pieces::from(DateTime|Date)/differs-from-to_string", &case, format!("{:?} vs {:?}; {:?} vs {:?}", a, b, c, d));
+                    }
+                }
+            }
+            r.add_states(1);
+            r.add_validated(2);
+        }
+    });
+}
+
+/// Values for `{:.N}`: every meaningful precision, the clamp boundary, and
+/// values on both sides of the u8 range the implementation converts through.
+const FMT_PRECS: [usize; 16] = [0, 1, 2, 3, 4, 5, 6, 7, 8, 9, 10, 12, 255, 256, 300, 65_535];
+
+// ---------------------------------------------------------------------------
+// canonical text -> value -> text over an enumerated grammar
+// ---------------------------------------------------------------------------
+
+const G_DATES: [(i64, i64, i64); 12] =
+    [(-9999, 1, 1), (-1, 12, 31), (0, 1, 1), (0, 2, 29), (1, 1, 1), (999, 12, 31), (1000, 1, 1), (1969, 12, 31), (1970, 1, 1), (2024, 2, 29), (2024, 11, 3), (9999, 12, 31)];
+const G_HMS: [i64; 5] = [0, 1, 5_400, 43_200, 86_399];
+/// canonical fractions: no trailing zero, every length 1..=9
+const G_FRAC: [&str; 15] =
+    ["", ".1", ".01", ".001", ".0001", ".00001", ".000001", ".0000001", ".00000001", ".000000001", ".123456789", ".5", ".999999999", ".10203", ".000000009"];
+const G_FRAC_SMALL: [&str; 4] = ["", ".5", ".000000001", ".10203"];
+const G_OFFS: [i64; 12] = [0, 60, -60, 19_800, -19_800, 43_200, -43_200, 50_400, 86_340, -86_340, 93_540, -93_540];
+
+fn frac_ns(f: &str) -> i64 {
+    if f.is_empty() {
+        return 0;
+    }
+    let d = &f[1..];
+    d.parse::<i64>().unwrap() * 10i64.pow(9 - d.len() as u32)
+}
+
+fn g_time_text(hms: i64, f: &str) -> String {
+    format!("{:02}:{:02}:{:02}{}", hms / 3600, (hms / 60) % 60, hms % 60, f)
+}
+
+fn g_date_text(d: (i64, i64, i64)) -> String {
+    // the grammar's DateYear: four digits, or a sign and six digits (only
+    // used for negative years in canonical texts)
+    if d.0 < 0 {
+        format!("-{:06}-{:02}-{:02}", -d.0, d.1, d.2)
+    } else {
+        format!("{:04}-{:02}-{:02}", d.0, d.1, d.2)
+    }
+}
+
+fn g_off_text(o: i64) -> String {
+    format!("{}{:02}:{:02}", if o < 0 { '-' } else { '+' }, o.abs() / 3600, (o.abs() / 60) % 60)
+}
+
+fn civil_of(d: (i64, i64, i64), hms: i64, f: &str) -> i128 {
+    (cal::days_from_civil(d.0, d.1, d.2) as i128 * 86_400 + hms as i128) * NS + frac_ns(f) as i128
+}
+
+/// Parse `text` as T with FromStr, compare with `want` (None = must be
+/// refused as out of range), print the value again: must be `text`.
+fn canon_trip<T: std::str::FromStr + ToString, K: PartialEq + std::fmt::Debug>(r: &Report, ty: &str, text: &str, want: Option<K>, key: impl Fn(&T) -> K + std::panic::RefUnwindSafe, n: &mut (u64, u64))
+where
+    T::Err: std::fmt::Display,
+{
+    let case = format!("text {}", text);
+    n.0 += 1;
+    match guard(|| text.parse::<T>().map(|v| (key(&v), v.to_string())).map_err(|e| e.to_string())) {
+        Err(p) => r.viol("canon", &format!("{}::from_str(canonical-text)/{}", ty, panic_sig(&p)), case, p),
+        Ok(Err(e)) => {
+            if want.is_some() {
+                r.viol("canon", &format!("{}::from_str(canonical-text)/parse-error", ty), case, e);
+            } else {
+                n.1 += 1;
+            }
+        }
+        Ok(Ok((k, again))) => match want {
+            None => r.viol("canon", &format!("{}::from_str(canonical-text)/accepted-out-of-range", ty), case, format!("parsed {:?}", k)),
+            Some(w) => {
+                if k != w {
+                    r.viol("canon", &format!("{}::from_str(canonical-text)/value", ty), case, format!("parsed {:?} want {:?}", k, w));
+                } else if again != text {
+                    r.viol("canon", &format!("{}::from_str(canonical-text)->to_string/not-the-same-text", ty), case, format!("reprinted {:?}", again));
+                }
+            }
+        },
+    }
+}
+
+fn sec_canon(r: &Report) {
+    r.section("canon", || {
+        let mut n = (0u64, 0u64);
+        // Date, Time, DateTime, Timestamp (Z)
+        for d in G_DATES {
+            canon_trip::<Date, _>(r, "Date", &g_date_text(d), Some(d), |v| conv::date_ymd(*v), &mut n);
+        }
+        for hms in G_HMS {
+            for f in G_FRAC {
+                let want = hms as i128 * NS + frac_ns(f) as i128;
+                canon_trip::<Time, _>(r, "Time", &g_time_text(hms, f), Some(want), |v| conv::time_ns(*v), &mut n);
+                for d in G_DATES {
+                    let c = civil_of(d, hms, f);
+                    let dt = format!("{}T{}", g_date_text(d), g_time_text(hms, f));
+                    canon_trip::<DateTime, _>(r, "DateTime", &dt, Some(c), |v| conv::dt_civil_ns(*v), &mut n);
+                    // the separator may be a space or lowercase (value only:
+                    // those are not what the printer writes by default)
+                    for sep in [' ', 't'] {
+                        let alt = format!("{}{}{}", g_date_text(d), sep, g_time_text(hms, f));
+                        match guard(|| alt.parse::<DateTime>().map(conv::dt_civil_ns).map_err(|e| e.to_string())) {
+                            Ok(Ok(k)) if k == c => {}
+                            other => r.viol("canon", "DateTime::from_str(separator-variant)/value", format!("text {}", alt), format!("{:?} want {}", other, c)),
+                        }
+                    }
+                    let in_range = c >= ts_min() && c <= ts_max();
+                    canon_trip::<Timestamp, _>(r, "Timestamp", &format!("{}Z", dt), if in_range { Some(c) } else { None }, |v| v.as_nanosecond(), &mut n);
+                }
+            }
+        }
+        r.count("canon_texts_refused_as_out_of_range", n.1);
+
+        // Timestamp with a numeric offset -> display_with_offset; Zoned with
+        // the offset repeated as annotation
+        let mut m = 0u64;
+        for d in G_DATES {
+            for hms in G_HMS {
+                for f in G_FRAC_SMALL {
+                    for o in G_OFFS {
+                        let c = civil_of(d, hms, f);
+                        let inst = c - o as i128 * NS;
+                        let in_range = inst >= ts_min() && inst <= ts_max();
+                        let base = format!("{}T{}{}", g_date_text(d), g_time_text(hms, f), g_off_text(o));
+                        let case = format!("text {}", base);
+                        m += 2;
+                        match guard(|| base.parse::<Timestamp>().map(|t| (t.as_nanosecond(), t.display_with_offset(Offset::from_seconds(o as i32).unwrap()).to_string())).map_err(|e| e.to_string())) {
+                            Err(p) => r.viol("canon", &format!("Timestamp::from_str(canonical-text-with-offset)/{}", panic_sig(&p)), &case, p),
+                            Ok(Err(e)) => {
+                                if in_range {
+                                    r.viol("canon", "Timestamp::from_str(canonical-text-with-offset)/parse-error", &case, e);
+                                }
+                            }
+                            Ok(Ok((k, again))) => {
+                                if !in_range {
+                                    r.viol("canon", "Timestamp::from_str(canonical-text-with-offset)/accepted-out-of-range", &case, format!("{}", k));
+                                } else if k != inst {
+                                    r.viol("canon", "Timestamp::from_str(canonical-text-with-offset)/instant", &case, format!("parsed {} want {}", k, inst));
+                                } else if again != base {
+                                    r.viol("canon", "Timestamp::from_str(canonical-text-with-offset)->display_with_offset/not-the-same-text", &case, format!("reprinted {:?}", again));
+                                }
+                            }
+                        }
+                        // zoned: +00:00 is annotated [UTC] (what a zero fixed offset is called)
+                        let ztext = if o == 0 { format!("{}[UTC]", base) } else { format!("{}[{}]", base, g_off_text(o)) };
+                        let zcase = format!("text {}", ztext);
+                        match guard(|| {
+                            ztext.parse::<Zoned>().map(|z| (z.timestamp().as_nanosecond(), z.offset().seconds() as i64, z.time_zone() == &TimeZone::fixed(Offset::from_seconds(o as i32).unwrap()), z.to_string())).map_err(|e| e.to_string())
+                        }) {
+                            Err(p) => r.viol("canon", &format!("Zoned::from_str(canonical-text-fixed-offset)/{}", panic_sig(&p)), &zcase, p),
+                            Ok(Err(e)) => {
+                                if in_range {
+                                    r.viol("canon", "Zoned::from_str(canonical-text-fixed-offset)/parse-error", &zcase, e);
+                                }
+                            }
+                            Ok(Ok((k, off, tz_ok, again))) => {
+                                if !in_range {
+                                    r.viol("canon", "Zoned::from_str(canonical-text-fixed-offset)/accepted-out-of-range", &zcase, format!("{}", k));
+                                } else if k != inst || off != o || !tz_ok {
+                                    r.viol("canon", "Zoned::from_str(canonical-text-fixed-offset)/value", &zcase, format!("parsed {} ns offset {} tz_ok {} want {} ns", k, off, tz_ok, inst));
+                                } else if again != ztext {
+                                    r.viol("canon", "Zoned::from_str(canonical-text-fixed-offset)->to_string/not-the-same-text", &zcase, format!("reprinted {:?}", again));
+                                }
+                            }
+                        }
+                    }
+                }
+            }
+        }
+
+        // Pieces: every canonical combination of the optional parts
+        let anns: Vec<(String, MAnn)> = vec![
+            ("UTC".into(), MAnn::Name("UTC".into())),
+            ("America/New_York".into(), MAnn::Name("America/New_York".into())),
+            ("Etc/GMT+5".into(), MAnn::Name("Etc/GMT+5".into())),
+            ("Australia/Bluey".into(), MAnn::Name("Australia/Bluey".into())),
+            ("+05:30".into(), MAnn::Off(19_800)),
+            ("-00:01".into(), MAnn::Off(-60)),
+            ("+25:59".into(), MAnn::Off(93_540)),
+        ];
+        let mut offs: Vec<(String, MOff)> = vec![("Z".into(), MOff::Zulu), ("-00:00".into(), MOff::Num { secs: 0, negzero: true })];
+        offs.extend(G_OFFS.iter().map(|&o| (g_off_text(o), MOff::Num { secs: o, negzero: false })));
+        let mut texts: Vec<(String, MPieces)> = vec![];
+        for d in G_DATES {
+            let mut stems: Vec<(String, Option<i128>, Option<MOff>)> = vec![(g_date_text(d), None, None)];
+            for hms in G_HMS {
+                for f in G_FRAC_SMALL {
+                    let t = format!("{}T{}", g_date_text(d), g_time_text(hms, f));
+                    let tn = hms as i128 * NS + frac_ns(f) as i128;
+                    stems.push((t.clone(), Some(tn), None));
+                    for (ot, om) in &offs {
+                        stems.push((format!("{}{}", t, ot), Some(tn), Some(*om)));
+                    }
+                }
+            }
+            for (stem, time, off) in stems {
+                texts.push((stem.clone(), MPieces { ymd: d, time, off, ann: None, critical: false }));
+                for (at, am) in &anns {
+                    for critical in [false, true] {
+                        texts.push((format!("{}[{}{}]", stem, if critical { "!" } else { "" }, at), MPieces { ymd: d, time, off, ann: Some(am.clone()), critical }));
+                    }
+                }
+            }
+        }
+        let n_crit = texts.iter().filter(|t| t.1.critical).count();
+        texts.par_iter().for_each(|(text, want)| {
+            let case = format!("text {}", text);
+            // the model writes the same text (sanity of the enumeration itself)
+            if &want.text(b'T', false, None) != text {
+                r.viol("canon", "ENGINE/grammar-text-is-not-what-the-model-writes", &case, want.text(b'T', false, None));
+            }
+            for (pname, which) in [("Pieces::parse", 0), ("DateTimeParser::parse_pieces", 1)] {
+                match guard(|| {
+                    let b = if which == 0 { Pieces::parse(text) } else { PARSER.parse_pieces(text) };
+                    b.map(|b| {
+                        let tz = match b.to_time_zone() {
+                            Ok(None) => "none".to_string(),
+                            Ok(Some(tz)) => match tz.iana_name() {
+                                Some(n) => format!("iana:{}", n),
+                                None => format!("fixed:{}", tz.to_fixed_offset().map(|o| o.seconds()).unwrap_or(i32::MIN)),
+                            },
+                            Err(_) => "error".to_string(),
+                        };
+                        (MPieces::view(&b), b.to_string(), tz)
+                    })
+                    .map_err(|e| e.to_string())
+                }) {
+                    Err(p) => r.viol("canon", &format!("{}(canonical-text)/{}", pname, panic_sig(&p)), &case, p),
+                    Ok(Err(e)) => r.viol("canon", &format!("{}(canonical-text)/parse-error", pname), &case, e),
+                    Ok(Ok((v, again, tz))) => {
+                        if &v != want {
+                            r.viol("canon", &format!("{}(canonical-text)/value", pname), &case, format!("parsed {:?} want {:?}", v, want));
+                        } else if &again != text {
+                            r.viol("canon", &format!("{}(canonical-text)->to_string/not-the-same-text", pname), &case, format!("reprinted {:?}", again));
+                        }
+                        let want_tz = match &want.ann {
+                            None => "none".to_string(),
+                            Some(MAnn::Name(n)) if n == "Australia/Bluey" => "error".to_string(),
+                            Some(MAnn::Name(n)) => format!("iana:{}", n),
+                            Some(MAnn::Off(o)) => format!("fixed:{}", o),
+                        };
+                        if tz != want_tz {
+                            r.viol("canon", "Pieces::to_time_zone(canonical-text)/value", &case, format!("got {} want {}", tz, want_tz));
+                        }
+                    }
+                }
+            }
+        });
+        r.count("canon_pieces_texts", texts.len() as u64);
+        r.count("canon_pieces_texts_with_critical_flag", n_crit as u64);
+
+        // second = 60: accepted by the grammar jiff implements (RFC 3339 and
+        // Temporal's TimeSecond) and read as second 59 with the same fraction
+        let mut k = 0u64;
+        for hm in ["23:59", "00:00", "12:34"] {
+            for f in G_FRAC_SMALL {
+                let hms = (hm[..2].parse::<i64>().unwrap()) * 3600 + hm[3..].parse::<i64>().unwrap() * 60 + 59;
+                let tn = hms as i128 * NS + frac_ns(f) as i128;
+                let c = civil_of((2016, 12, 31), hms, f);
+                let t = format!("{}:60{}", hm, f);
+                let checks: Vec<(&str, String, Result<i128, String>, i128)> = vec![
+                    ("Time", t.clone(), guard(|| t.parse::<Time>().map(conv::time_ns).map_err(|e| e.to_string())).unwrap_or_else(Err), tn),
+                    ("DateTime", format!("2016-12-31T{}", t), guard(|| format!("2016-12-31T{}", t).parse::<DateTime>().map(conv::dt_civil_ns).map_err(|e| e.to_string())).unwrap_or_else(Err), c),
+                    ("Timestamp", format!("2016-12-31T{}Z", t), guard(|| format!("2016-12-31T{}Z", t).parse::<Timestamp>().map(|v| v.as_nanosecond()).map_err(|e| e.to_string())).unwrap_or_else(Err), c),
+                    ("Zoned", format!("2016-12-31T{}+00:00[UTC]", t), guard(|| format!("2016-12-31T{}+00:00[UTC]", t).parse::<Zoned>().map(|v| v.timestamp().as_nanosecond()).map_err(|e| e.to_string())).unwrap_or_else(Err), c),
+                    ("Pieces", format!("2016-12-31T{}", t), guard(|| Pieces::parse(&format!("2016-12-31T{}", t)).map(|p| conv::dt_civil_ns(DateTime::from_parts(p.date(), p.time().unwrap()))).map_err(|e| e.to_string())).unwrap_or_else(Err), c),
+                ];
+                for (ty, text, got, want) in checks {
+                    k += 1;
+                    if got != Ok(want) {
+                        r.viol("canon", &format!("{}::from_str(second=60)/not-read-as-second-59", ty), format!("text {}", text), format!("{:?} want {}", got, want));
+                    }
+                }
+            }
+        }
+        r.count("canon_leap_second_texts", k);
+        r.count("canon_texts", n.0 + m + 2 * texts.len() as u64 + k);
+        r.add_states(n.0 + m + texts.len() as u64 + k);
+        r.add_transitions(2 * (n.0 + m + 2 * texts.len() as u64) + k);
+        r.add_validated(n.0 + m + 2 * texts.len() as u64 + k);
+    });
+}
+
+// ---------------------------------------------------------------------------
+// Lone time zones (print_time_zone -> parse_time_zone) and zoned datetimes
+// whose zone cannot be named: POSIX, sub-minute fixed offsets, Etc/Unknown
+// ---------------------------------------------------------------------------
+
+const POSIX_ZONES: [&str; 7] = [
+    "EST5EDT,M3.2.0,M11.1.0",
+    "CET-1CEST,M3.5.0,M10.5.0/3",
+    "NZST-12NZDT,M9.5.0,M4.1.0/3",
+    "<+0330>-3:30<+0430>,J79/24,J263/24",
+    "IST-5:30",
+    "LHST-10:30LHDT-11,M10.1.0,M4.1.0",
+    "LMT0:44:30",
+];
+
+/// A zoned datetime in a zone without an IANA name: documented to print the
+/// offset (rounded to the minute) in place of the name. The text must be
+/// valid RFC 9557, parse to the instant the text denotes (the original one
+/// for whole-minute offsets) with that offset as a fixed-offset zone.
+fn check_zoned_unnamed(r: &Report, kind: &str, zdesc: &str, tz: &TimeZone, off: i64, t_ns: i128, n_shift: &mut u64) {
+    let case = || format!("zoned zone={} t={}", zdesc, conv::fmt_ns(t_ns));
+    let op = format!("Zoned[{}]::to_string", kind);
+    let res = guard(|| {
+        let z = Timestamp::from_nanosecond(t_ns).unwrap().to_zoned(tz.clone());
+        let text = z.to_string();
+        let back = text.parse::<Zoned>().map(|b| (b.timestamp().as_nanosecond(), b.offset().seconds() as i64, b.time_zone().clone())).map_err(|e| e.to_string());
+        (z.offset().seconds() as i64, text, back)
+    });
+    let (joff, text, back) = match res {
+        Err(p) => {
+            r.viol("time_zone", &format!("{}->parse/{}", op, panic_sig(&p)), case(), p);
+            return;
+        }
+        Ok(x) => x,
+    };
+    if joff != off {
+        return; // the zone's offset itself is another property's business (C03)
+    }
+    let rounded = rfmt::round_offset_to_minute(off);
+    let negzero = off < 0 && off > -30;
+    let otext = if negzero { "+00:00".to_string() } else { rfmt::fmt_offset_min(off) };
+    let canon = format!("{}{}[{}]", rfmt::fmt_civil(t_ns + off as i128 * NS, b'T', None), otext, otext);
+    if text != canon {
+        let k = if negzero { "[-30s<offset<0:printed-as--00:00]" } else { "" };
+        r.viol("time_zone", &format!("{}/not-the-canonical-text{}", op, k), case(), format!("jiff {:?} canonical {:?}", text, canon));
+    }
+    let rd = match rfmt::read_full(&text, true, true) {
+        Err(e) => {
+            r.viol("time_zone", &format!("{}/reader-grammar", op), case(), format!("text {:?}: {}", text, e));
+            return;
+        }
+        Ok(rd) => rd,
+    };
+    let inst = rd.instant_ns().unwrap();
+    if off % 60 == 0 && inst != t_ns {
+        r.viol("time_zone", &format!("{}/reader-instant", op), case(), format!("text {:?} read {} want {}", text, inst, t_ns));
+    }
+    if inst != t_ns {
+        *n_shift += 1;
+    }
+    let in_range = inst >= ts_min() && inst <= ts_max();
+    match back {
+        Err(e) => {
+            if in_range {
+                r.viol("time_zone", &format!("{}->parse/parse-error", op), case(), format!("text {:?}: {}", text, e));
+            }
+        }
+        Ok((g, goff, gtz)) => {
+            let want_tz = TimeZone::fixed(Offset::from_seconds(rounded as i32).unwrap());
+            if g != inst {
+                r.viol("time_zone", &format!("{}->parse/instant", op), case(), format!("text {:?} parsed {} want {}", text, g, inst));
+            } else if goff != rounded || gtz != want_tz {
+                r.viol("time_zone", &format!("{}->parse/offset-or-zone", op), case(), format!("text {:?} parsed offset {} zone {:?} want fixed {}", text, goff, gtz, rounded));
+            }
+        }
+    }
+}
+
+fn sec_time_zone(r: &Report) {
+    r.section("time_zone", || {
+        let printer = DateTimePrinter::new();
+        // --- every fixed offset: full precision, documented +HH:MM[:SS] ---
+        let max = 25 * 3600 + 59 * 60 + 59;
+        let n_sec: u64 = (-max..=max)
+            .into_par_iter()
+            .map(|off: i32| {
+                let case = || format!("fixed offset={}", off);
+                let res = guard(|| {
+                    let o = Offset::from_seconds(off).unwrap();
+                    let tz = TimeZone::fixed(o);
+                    let text = printer.time_zone_to_string(&tz).map_err(|e| e.to_string());
+                    let back = text.as_ref().ok().map(|t| PARSER.parse_time_zone(t).map(|b| b == tz).map_err(|e| e.to_string()));
+                    let otext = o.to_string();
+                    let oback = PARSER.parse_time_zone(&otext).map(|b| b == tz).map_err(|e| e.to_string());
+                    (text, back, otext, oback)
+                });
+                match res {
+                    Err(p) => r.viol("time_zone", &format!("DateTimePrinter::time_zone_to_string[fixed]->parse_time_zone/{}", panic_sig(&p)), case(), p),
+                    Ok((text, back, otext, oback)) => {
+                        let want = if off == 0 { "UTC".to_string() } else { rfmt::fmt_offset_full(off as i64) };
+                        match (&text, back) {
+                            (Ok(t), Some(b)) => {
+                                if t != &want {
+                                    r.viol("time_zone", "DateTimePrinter::time_zone_to_string[fixed]/not-the-documented-text", case(), format!("jiff {:?} documented {:?}", t, want));
+                                }
+                                if b != Ok(true) {
+                                    r.viol("time_zone", "DateTimePrinter::time_zone_to_string[fixed]->parse_time_zone/value", case(), format!("text {:?}: {:?}", t, b));
+                                }
+                            }
+                            _ => r.viol("time_zone", "DateTimePrinter::time_zone_to_string[fixed]/error", case(), format!("{:?}", text)),
+                        }
+                        if oback != Ok(true) {
+                            r.viol("time_zone", "Offset::to_string->parse_time_zone/value", case(), format!("text {:?}: {:?}", otext, oback));
+                        }
+                    }
+                }
+                (off % 60 != 0) as u64
+            })
+            .sum();
+        r.count("time_zone_fixed_offsets", (2 * max + 1) as u64);
+        r.count("time_zone_fixed_offsets_with_seconds", n_sec);
+        r.add_states((2 * max + 1) as u64);
+        r.add_transitions(4 * (2 * max + 1) as u64);
+        r.add_validated(3 * (2 * max + 1) as u64);
+
+        // --- every IANA name of the system database ---
+        let db = jiff::tz::db();
+        let names: Vec<String> = db.available().map(|n| n.as_str().to_string()).collect();
+        let n_names: u64 = names
+            .par_iter()
+            .map(|name| {
+                let case = || format!("zone={}", name);
+                let res = guard(|| {
+                    let tz = db.get(name).map_err(|e| e.to_string())?;
+                    let text = printer.time_zone_to_string(&tz).map_err(|e| e.to_string())?;
+                    let mut buf = String::new();
+                    printer.print_time_zone(&tz, &mut buf).map_err(|e| e.to_string())?;
+                    let a = PARSER.parse_time_zone(&text).map_err(|e| e.to_string())?;
+                    let b = PARSER.parse_time_zone_with(db, &text).map_err(|e| e.to_string())?;
+                    // same answers at instants across the whole range (used only for
+                    // names that are also complete POSIX TZ strings, see below)
+                    let same_behaviour = [Timestamp::MIN, Timestamp::UNIX_EPOCH, Timestamp::MAX].iter().all(|&t| {
+                        let (x, y, z) = (tz.to_offset_info(t), a.to_offset_info(t), b.to_offset_info(t));
+                        x.offset() == y.offset() && x.offset() == z.offset() && x.dst() == y.dst() && x.dst() == z.dst()
+                    });
+                    Ok::<_, String>((text, buf, a == tz, b == tz, a.iana_name().map(|s| s.to_string()), same_behaviour))
+                });
+                match res {
+                    Err(p) => r.viol("time_zone", &format!("DateTimePrinter::time_zone_to_string[iana]->parse_time_zone/{}", panic_sig(&p)), case(), p),
+                    Ok(Err(e)) => r.viol("time_zone", "DateTimePrinter::time_zone_to_string[iana]->parse_time_zone/error", case(), e),
+                    Ok(Ok((text, buf, a, b, iana, same_behaviour))) => {
+                        if &text != name || buf != text {
+                            r.viol("time_zone", "DateTimePrinter::time_zone_to_string[iana]/not-the-name", case(), format!("{:?} / {:?}", text, buf));
+                        }
+                        if !a || !b || iana.as_deref() != Some(name.as_str()) {
+                            // input class: the name is itself a complete POSIX TZ
+                            // string without DST (GMT0, GMT+0, GMT-0), which
+                            // parse_time_zone reads as such
+                            let posix = matches!(rtz::parse_posix(name.as_bytes()), Ok(ref p) if p.dst.is_none());
+                            // Such a text belongs to two of the three documented
+                            // categories of parse_time_zone and no precedence is
+                            // documented (and C09 itself speaks of datetimes, not of
+                            // lone zones): a POSIX zone with the same behaviour is
+                            // accepted and counted.
+                            if posix && same_behaviour {
+                                r.count("time_zone_iana_names_that_are_complete_posix_strings(read as POSIX, same behaviour: accepted)", 1);
+                                return 1;
+                            }
+                            let k = if posix { "[name-is-also-a-posix-tz-string]" } else { "" };
+                            r.viol("time_zone", &format!("DateTimePrinter::time_zone_to_string[iana]->parse_time_zone/value{}", k), case(), format!("text {:?}: equal {} {} name {:?}", text, a, b, iana));
+                        }
+                    }
+                }
+                1
+            })
+            .sum();
+        r.count("time_zone_iana_names", n_names);
+        r.add_states(n_names);
+        r.add_validated(2 * n_names);
+
+        // --- POSIX zones: the lone zone round-trips; a zoned datetime prints the offset ---
+        let quick = r.quick();
+        let mut n_posix = 0u64;
+        let mut n_shift = 0u64;
+        for s in POSIX_ZONES {
+            let pair = match zones::load_posix_pair(s) {
+                Ok(p) => p,
+                Err(e) => {
+                    r.note(format!("posix zone {} not loaded: {}", s, e));
+                    continue;
+                }
+            };
+            match guard(|| {
+                let text = printer.time_zone_to_string(&pair.jiff).map_err(|e| e.to_string())?;
+                let back = PARSER.parse_time_zone(&text).map_err(|e| e.to_string())?;
+                Ok::<_, String>((text, back == pair.jiff))
+            }) {
+                Err(p) => r.viol("time_zone", &format!("DateTimePrinter::time_zone_to_string[posix]->parse_time_zone/{}", panic_sig(&p)), s, p),
+                Ok(Err(e)) => r.viol("time_zone", "DateTimePrinter::time_zone_to_string[posix]->parse_time_zone/error", s, e),
+                Ok(Ok((text, eq))) => {
+                    if !eq {
+                        r.viol("time_zone", "DateTimePrinter::time_zone_to_string[posix]->parse_time_zone/value", s, format!("text {:?} parses to a different zone", text));
+                    }
+                }
+            }
+            let mut v = zone_edge_probes(&pair.model);
+            v.extend(vf::pools::timestamps().into_iter().map(|t| t.as_nanosecond()));
+            for k in zones::probe_pieces(&pair.model, &|y| if quick { (1990..=2040).contains(&y) } else { (1800..=2400).contains(&y) }) {
+                probes_for_piece(&pair.model, k, &mut v);
+            }
+            clip(&mut v);
+            v.sort_unstable();
+            v.dedup();
+            for &t in &v {
+                let cls = classify(&pair.model, t, t);
+                if cls.f7 {
+                    continue;
+                }
+                check_zoned_unnamed(r, "posix", s, &pair.jiff, cls.off, t, &mut n_shift);
+                n_posix += 1;
+            }
+        }
+        r.count("time_zone_posix_zoned_cases", n_posix);
+
+        // --- every fixed offset with seconds, three instants ---
+        let tss: [i128; 3] = [0, 1_718_454_896_789_000_000, -1_500_000_000];
+        let shifted: u64 = (-max..=max)
+            .into_par_iter()
+            .filter(|off| off % 60 != 0)
+            .map(|off: i32| {
+                let tz = TimeZone::fixed(Offset::from_seconds(off).unwrap());
+                let mut n = 0u64;
+                for &t in &tss {
+                    check_zoned_unnamed(r, "fixed-with-seconds", &format!("fixed{}", off), &tz, off as i64, t, &mut n);
+                }
+                n
+            })
+            .sum();
+        r.count("time_zone_subminute_fixed_zoned_cases", n_sec * 3);
+        r.count("time_zone_text_instant_shifted_by_rounding", shifted + n_shift);
+        r.add_states(n_posix + n_sec * 3);
+        r.add_transitions(2 * (n_posix + n_sec * 3));
+        r.add_validated(2 * (n_posix + n_sec * 3));
+
+        // --- Etc/Unknown: printed Z[Etc/Unknown], parses back to the unknown zone ---
+        let unk = TimeZone::unknown();
+        let mut n_unk = 0u64;
+        for t in vf::pools::timestamps() {
+            let tn = t.as_nanosecond();
+            let case = format!("zoned zone=Etc/Unknown t={}", conv::fmt_ns(tn));
+            n_unk += 1;
+            match guard(|| {
+                let z = t.to_zoned(unk.clone());
+                let text = z.to_string();
+                let back = text.parse::<Zoned>().map(|b| (b.timestamp().as_nanosecond(), b.time_zone().is_unknown())).map_err(|e| e.to_string());
+                let ts = text.parse::<Timestamp>().map(|b| b.as_nanosecond()).map_err(|e| e.to_string());
+                (text, back, ts)
+            }) {
+                Err(p) => r.viol("time_zone", &format!("Zoned[unknown]::to_string->parse/{}", panic_sig(&p)), &case, p),
+                Ok((text, back, ts)) => {
+                    let canon = format!("{}Z[Etc/Unknown]", rfmt::fmt_civil(tn, b'T', None));
+                    if text != canon {
+                        r.viol("time_zone", "Zoned[unknown]::to_string/not-the-canonical-text", &case, format!("jiff {:?} canonical {:?}", text, canon));
+                    }
+                    if back != Ok((tn, true)) || ts != Ok(tn) {
+                        r.viol("time_zone", "Zoned[unknown]::to_string->parse/value", &case, format!("text {:?} parsed {:?} / {:?}", text, back, ts));
+                    }
+                }
+            }
+        }
+        r.count("time_zone_unknown_zoned_cases", n_unk);
+        r.add_states(n_unk);
+        r.add_validated(2 * n_unk);
+    });
+}
+
+// ---------------------------------------------------------------------------
+// std::fmt flags ({:.N}, {:?}, {:.N?}) on every type, the Write adapters, and
+// the printer options on Date
+// ---------------------------------------------------------------------------
+
+/// `{:.N}` must give the documented text (exactly min(N,9) digits), `{:?}` /
+/// `{:.N?}` the same as Display, and the text must parse back (through
+/// `parse`) to the value truncated to the printed precision.
+#[allow(clippy::too_many_arguments)]
+fn fmt_flags_case<V: std::fmt::Display + std::fmt::Debug + std::panic::RefUnwindSafe>(
+    r: &Report,
+    ty: &str,
+    case: &str,
+    v: &V,
+    debug_is_display: bool,
+    canon: &dyn Fn(Option<u8>) -> String,
+    parse_back: &(dyn Fn(&str) -> Result<i128, String> + std::panic::RefUnwindSafe),
+    want_back: &dyn Fn(Option<u8>) -> Option<i128>,
+) -> u64 {
+    let mut n = 0;
+    let mut precs: Vec<Option<usize>> = vec![None];
+    precs.extend(FMT_PRECS.iter().map(|&p| Some(p)));
+    for p in precs {
+        n += 1;
+        let c = || format!("{} fmt-precision={:?}", case, p);
+        let res = guard(|| {
+            let (d, g, alt) = match p {
+                None => (format!("{}", v), format!("{:?}", v), format!("{:#}", v)),
+                Some(p) => (format!("{:.*}", p, v), format!("{:.*?}", p, v), format!("{:#.*}", p, v)),
+            };
+            let back = parse_back(&d);
+            (d, g, alt, back)
+        });
+        match res {
+            Err(pn) => r.viol("fmt_flags", &format!("{}::fmt(precision)/{}", ty, panic_sig(&pn)), c(), pn),
+            Ok((d, g, alt, back)) => {
+                let prec = p.map(|p| p.min(9) as u8);
+                let want = canon(prec);
+                if d != want {
+                    r.viol("fmt_flags", &format!("{}::fmt(precision)/not-the-documented-text", ty), c(), format!("jiff {:?} documented {:?}", d, want));
+                }
+                if debug_is_display && g != d {
+                    r.viol("fmt_flags", &format!("{}::fmt(Debug)/differs-from-Display", ty), c(), format!("Debug {:?} Display {:?}", g, d));
+                }
+                if alt != d {
+                    r.viol("fmt_flags", &format!("{}::fmt(alternate)/differs-from-Display", ty), c(), format!("{{:#}} {:?} Display {:?}", alt, d));
+                }
+                if let Some(w) = want_back(prec) {
+                    match back {
+                        Err(e) => r.viol("fmt_flags", &format!("{}::fmt(precision)->parse/parse-error", ty), c(), format!("text {:?}: {}", d, e)),
+                        Ok(b) => {
+                            if b != w {
+                                r.viol("fmt_flags", &format!("{}::fmt(precision)->parse/value", ty), c(), format!("text {:?} parsed {} want {}", d, b, w));
+                            }
+                        }
+                    }
+                }
+            }
+        }
+    }
+    n
+}
+
+fn trunc_to(ns: i128, prec: Option<u8>) -> i128 {
+    match prec {
+        None => ns,
+        Some(p) => {
+            let u = 10i128.pow(9 - p.min(9) as u32);
+            ns.div_euclid(u) * u
+        }
+    }
+}
+
+fn sec_fmt_flags(r: &Report) {
+    r.section("fmt_flags", || {
+        let mut n = 0u64;
+        // Time
+        let mut times: Vec<Time> = vf::pools::times();
+        times.extend(SUBSEC.iter().map(|&ns| Time::new(7, 8, 9, ns as i32).unwrap()));
+        for t in &times {
+            let tn = conv::time_ns(*t);
+            n += fmt_flags_case(r, "Time", &format!("time {}", t), t, true, &|p| rfmt::fmt_time(tn, p), &|s| s.parse::<Time>().map(conv::time_ns).map_err(|e| e.to_string()), &|p| Some(trunc_to(tn, p)));
+        }
+        // Date (precision is irrelevant, Debug = Display)
+        for d in vf::pools::dates() {
+            let (y, m, dd) = conv::date_ymd(d);
+            let e = conv::date_epoch_day(d) as i128;
+            n += fmt_flags_case(r, "Date", &format!("date {}", d), &d, true, &|_| rfmt::fmt_date(y, m, dd), &|s| s.parse::<Date>().map(|b| conv::date_epoch_day(b) as i128).map_err(|e| e.to_string()), &|_| Some(e));
+        }
+        // DateTime
+        let mut dts: Vec<DateTime> = vf::pools::datetimes();
+        for d in vf::pools::dates() {
+            for &ns in &SUBSEC {
+                dts.push(DateTime::from_parts(d, Time::new(7, 8, 9, ns as i32).unwrap()));
+            }
+        }
+        let nd: u64 = dts
+            .par_iter()
+            .map(|dt| {
+                let c = conv::dt_civil_ns(*dt);
+                fmt_flags_case(r, "DateTime", &format!("datetime {}", dt), dt, true, &|p| rfmt::fmt_civil(c, b'T', p), &|s| s.parse::<DateTime>().map(conv::dt_civil_ns).map_err(|e| e.to_string()), &|p| Some(trunc_to(c, p)))
+            })
+            .sum();
+        n += nd;
+        // Timestamp and display_with_offset
+        let mut tss: Vec<i128> = vf::pools::timestamps().into_iter().map(|t| t.as_nanosecond()).collect();
+        for base in [0i128, -1, 1_700_000_000] {
+            for &ns in &SUBSEC {
+                tss.push(base * NS + ns as i128);
+            }
+        }
+        tss.sort_unstable();
+        tss.dedup();
+        let offs: [i32; 7] = [0, -18_000, 19_800, 45_900, -2_670, 93_599, -93_540];
+        let nt: u64 = tss
+            .par_iter()
+            .map(|&t| {
+                let ts = Timestamp::from_nanosecond(t).unwrap();
+                let mut k = fmt_flags_case(r, "Timestamp", &format!("timestamp t={}", conv::fmt_ns(t)), &ts, true, &|p| format!("{}Z", rfmt::fmt_civil(trunc_to(t, p), b'T', p)), &|s| s.parse::<Timestamp>().map(|b| b.as_nanosecond()).map_err(|e| e.to_string()), &|p| Some(trunc_to(t, p)));
+                for &o in &offs {
+                    let off = Offset::from_seconds(o).unwrap();
+                    let d = ts.display_with_offset(off);
+                    let r_off = rfmt::round_offset_to_minute(o as i64);
+                    k += fmt_flags_case(
+                        r,
+                        "TimestampDisplayWithOffset",
+                        &format!("display_with_offset t={} offset={}", conv::fmt_ns(t), o),
+                        &d,
+                        false,
+                        &|p| format!("{}{}", rfmt::fmt_civil(trunc_to(t, p) + o as i128 * NS, b'T', p), rfmt::fmt_offset_min(o as i64)),
+                        &|s| s.parse::<Timestamp>().map(|b| b.as_nanosecond()).map_err(|e| e.to_string()),
+                        // the text denotes civil - rounded offset
+                        &|p| Some(trunc_to(t, p) + (o as i128 - r_off as i128) * NS).filter(|i| *i >= ts_min() && *i <= ts_max()),
+                    );
+                }
+                k
+            })
+            .sum();
+        n += nt;
+        // Zoned: representative zones x pool instants and their first/last recorded transitions
+        let db = jiff::tz::db();
+        let reps = zones::rep();
+        let nz: u64 = reps
+            .par_iter()
+            .map(|z| {
+                let Ok(model) = rtz::zone_from_tzif(&z.bytes) else { return 0 };
+                let Ok(Ok(tz)) = guard(|| db.get(&z.name)) else { return 0 };
+                let mut v: Vec<i128> = vf::pools::timestamps().into_iter().map(|t| t.as_nanosecond()).collect();
+                v.push(1_718_454_896_789_000_000);
+                v.push(-1_718_454_896_789_012_345);
+                let ks = zones::probe_pieces(&model, &|_| false);
+                for &k in ks.iter().take(2).chain(ks.iter().rev().take(2)) {
+                    probes_for_piece(&model, k, &mut v);
+                }
+                clip(&mut v);
+                v.sort_unstable();
+                v.dedup();
+                let mut k = 0;
+                for &t in &v {
+                    let cls = classify(&model, t, t);
+                    if cls.f7 {
+                        continue;
+                    }
+                    let Ok(zd) = guard(|| Timestamp::from_nanosecond(t).unwrap().to_zoned(tz.clone())) else { continue };
+                    let name = z.name.clone();
+                    k += fmt_flags_case(
+                        r,
+                        "Zoned",
+                        &format!("zoned zone={} t={}", z.name, conv::fmt_ns(t)),
+                        &zd,
+                        true,
+                        &|p| format!("{}{}[{}]", rfmt::fmt_civil(trunc_to(t, p) + cls.off as i128 * NS, b'T', p), rfmt::fmt_offset_min(cls.off), name),
+                        &|s| s.parse::<Zoned>().map(|b| b.timestamp().as_nanosecond()).map_err(|e| e.to_string()),
+                        // truncation can move an instant across a transition or onto the
+                        // other side of a fold; the parse-back value is only claimed when
+                        // the truncated instant keeps the offset and is not in a same-minute fold
+                        &|p| {
+                            let w = trunc_to(t, p);
+                            let c2 = classify(&model, w, w);
+                            if c2.off == cls.off && !c2.same_minute && !c2.f7 {
+                                Some(w)
+                            } else {
+                                None
+                            }
+                        },
+                    );
+                }
+                k
+            })
+            .sum();
+        n += nz;
+        r.count("fmt_flags_cases", n);
+        r.add_states(n);
+        r.add_transitions(4 * n);
+        r.add_validated(4 * n);
+
+        // --- the Write adapters: every print_* into String, Vec<u8>,
+        // StdFmtWrite and StdIoWrite writes what *_to_string returns ---
+        use jiff::fmt::{StdFmtWrite, StdIoWrite};
+        struct Dyn<'a>(&'a mut dyn jiff::fmt::Write);
+        impl jiff::fmt::Write for Dyn<'_> {
+            fn write_str(&mut self, s: &str) -> Result<(), jiff::Error> {
+                self.0.write_str(s)
+            }
+        }
+        let pr = DateTimePrinter::new().precision(Some(3)).separator(b' ');
+        macro_rules! adapters {
+            ($name:literal, $case:expr, $to_string:expr, $print:expr) => {{
+                let case: String = $case;
+                match guard(|| {
+                    let want: String = $to_string;
+                    let mut a = String::new();
+                    let ra = $print(&mut a as &mut dyn jiff::fmt::Write).is_ok();
+                    let mut b: Vec<u8> = vec![];
+                    let rb = $print(&mut b as &mut dyn jiff::fmt::Write).is_ok();
+                    let mut c = String::new();
+                    let rc = $print(&mut StdFmtWrite(&mut c) as &mut dyn jiff::fmt::Write).is_ok();
+                    let mut d: Vec<u8> = vec![];
+                    let rd = $print(&mut StdIoWrite(&mut d) as &mut dyn jiff::fmt::Write).is_ok();
+                    (ra && rb && rc && rd && a == want && b == want.as_bytes() && c == want && d == want.as_bytes(), want, a, c)
+                }) {
+                    Err(p) => r.viol("fmt_flags", &format!("DateTimePrinter::{}/{}", $name, panic_sig(&p)), case, p),
+                    Ok((ok, want, a, c)) => {
+                        if !ok {
+                            r.viol("fmt_flags", &format!("DateTimePrinter::{}/writers-disagree-with-to_string", $name), case, format!("to_string {:?} String {:?} StdFmtWrite {:?}", want, a, c));
+                        }
+                    }
+                }
+            }};
+        }
+        let mut nw = 0u64;
+        for dt in vf::pools::datetimes() {
+            adapters!("print_datetime", format!("datetime {}", dt), pr.datetime_to_string(&dt), |w: &mut dyn jiff::fmt::Write| pr.print_datetime(&dt, Dyn(w)));
+            adapters!("print_date", format!("date {}", dt.date()), pr.date_to_string(&dt.date()), |w: &mut dyn jiff::fmt::Write| pr.print_date(&dt.date(), Dyn(w)));
+            adapters!("print_time", format!("time {}", dt.time()), pr.time_to_string(&dt.time()), |w: &mut dyn jiff::fmt::Write| pr.print_time(&dt.time(), Dyn(w)));
+            nw += 3;
+        }
+        let ny = db.get("America/New_York").unwrap();
+        for ts in vf::pools::timestamps() {
+            let off = Offset::from_seconds(-2_670).unwrap();
+            let zd = ts.to_zoned(ny.clone());
+            let pc = Pieces::from(&zd);
+            adapters!("print_timestamp", format!("timestamp {}", ts), pr.timestamp_to_string(&ts), |w: &mut dyn jiff::fmt::Write| pr.print_timestamp(&ts, Dyn(w)));
+            adapters!("print_timestamp_with_offset", format!("timestamp {} offset -2670", ts), pr.timestamp_with_offset_to_string(&ts, off), |w: &mut dyn jiff::fmt::Write| pr.print_timestamp_with_offset(&ts, off, Dyn(w)));
+            adapters!("print_zoned", format!("zoned {}", zd), pr.zoned_to_string(&zd), |w: &mut dyn jiff::fmt::Write| pr.print_zoned(&zd, Dyn(w)));
+            adapters!("print_pieces", format!("pieces {}", pc), pr.pieces_to_string(&pc), |w: &mut dyn jiff::fmt::Write| pr.print_pieces(&pc, Dyn(w)));
+            adapters!("print_time_zone", "zone America/New_York".to_string(), pr.time_zone_to_string(&ny).unwrap(), |w: &mut dyn jiff::fmt::Write| pr.print_time_zone(&ny, Dyn(w)));
+            nw += 5;
+        }
+        r.count("fmt_flags_writer_cases", nw);
+        r.add_states(nw);
+        r.add_validated(4 * nw);
+
+        // --- printer options on Date: none of them applies; the text is Display's ---
+        let mut no = 0u64;
+        for o in Opt::all() {
+            for d in vf::pools::dates() {
+                no += 1;
+                let case = || format!("date {}{}", d, o.name());
+                match guard(|| (o.printer().date_to_string(&d), PARSER.parse_date(o.printer().date_to_string(&d)).map_err(|e| e.to_string()))) {
+                    Err(p) => r.viol("fmt_flags", &format!("DateTimePrinter::date_to_string->parse_date/{}", panic_sig(&p)), case(), p),
+                    Ok((text, back)) => {
+                        let (y, m, dd) = conv::date_ymd(d);
+                        if text != rfmt::fmt_date(y, m, dd) {
+                            r.viol("fmt_flags", "DateTimePrinter::date_to_string/not-the-canonical-text", case(), format!("jiff {:?}", text));
+                        }
+                        if back != Ok(d) {
+                            r.viol("fmt_flags", "DateTimePrinter::date_to_string->parse_date/value", case(), format!("text {:?} parsed {:?}", text, back));
+                        }
+                    }
+                }
+            }
+        }
+        r.count("fmt_flags_date_option_cases", no);
+        r.add_states(no);
+        r.add_validated(2 * no);
     });
 }
